@@ -3,10 +3,12 @@ package c09
 
 import (
 	"fmt"
+	"math/big"
 	"os"
 	"runtime"
 	"strconv"
 	"strings"
+	"sync"
 	"testing"
 	"time"
 
@@ -260,6 +262,7 @@ func genSentence(t *rapid.T) ([]string, *pb.Query) {
 }
 
 var junk = []string{"&", "|", "^", "(", ")", ";", ",", "=", "$", "$0", "$00", "$2147483648", "$4294967297", "$99999999999999999999", "$-1", "$1",
+	"$18446744073709551616", "$18446744073709551617", "$18446744075857035263", "$36893488147419103233", "$340282366920938463463374607431768211457", "$9223372036854775808", "$9223372036854775809",
 	"\"x", "\"", "\"\"\"", "x", "9", "_a", "é", "\xff", "\x00", "\v", "\f", "a=\"1\"", "junk", "a = \"1\" ; ", "#", "--", "'x'", "a==\"1\"", "\"a\"=\"b\""}
 
 func mutate(t *rapid.T, toks []string) []string {
@@ -327,6 +330,43 @@ func drawBytes(t *rapid.T) *Case {
 	return &Case{Input: string(rapid.SliceOfN(rapid.Byte(), 0, 40).Draw(t, "raw")), Source: "bytes"}
 }
 
+// drawWrapPlaceholder: k*2^w + small for w in {32,64,128}: numbers that turn
+// into a valid placeholder when an implementation lets the integer wrap.
+func drawWrapPlaceholder(t *rapid.T) *Case {
+	w := rapid.SampledFrom([]uint{32, 63, 64, 65, 128}).Draw(t, "width")
+	k := int64(rapid.IntRange(1, 9).Draw(t, "k"))
+	small := int64(rapid.SampledFrom([]int{0, 1, 2, 7, 2147483647}).Draw(t, "small"))
+	n := new(big.Int).Lsh(big.NewInt(k), w)
+	n.Add(n, big.NewInt(small))
+	return &Case{Input: "a = $" + n.String() + rapid.SampledFrom([]string{"", " ; a", " & b = $1"}).Draw(t, "rest"), Source: "wrap-placeholder"}
+}
+
+// twins returns variants of a sentence that differ only in whitespace inside
+// quoted values, or use a non-separator (\v, U+00A0, U+2003) where the original
+// has a blank between tokens.  Each variant is judged on its own by the
+// reference; running them right after the original exposes any state that
+// leaks from one ParseQuery call to the next (memo keyed by normalised text).
+func twins(s string) []string {
+	var out []string
+	out = append(out, strings.ReplaceAll(s, "  ", " "), strings.ReplaceAll(s, " ", "  "), strings.ReplaceAll(s, "\t", " "), strings.ReplaceAll(s, " ", "\t"))
+	out = append(out, strings.Replace(s, " ", "\v", 1), strings.Replace(s, " ", "\u00a0", 1), strings.Replace(s, " ", "\u2003", 1), strings.ToUpper(s), strings.TrimSpace(s)+" ")
+	return out
+}
+
+var spacedValues = []string{"New York", "New  York", " lead", "trail ", "a\tb", "a \t b", "  ", " ", "x  y  z"}
+
+func drawTwinBase(t *rapid.T) string {
+	n := rapid.IntRange(1, 3).Draw(t, "nleaves")
+	var parts []string
+	for i := 0; i < n; i++ {
+		parts = append(parts, rapid.SampledFrom(fields).Draw(t, "tf")+" = "+quote(rapid.SampledFrom(spacedValues).Draw(t, "tv")))
+	}
+	return strings.Join(parts, rapid.SampledFrom([]string{" & ", " | "}).Draw(t, "top"))
+}
+
+// syntax error at one token, lexical error at the very next one
+var synlex = []string{"a a !", "a = = \"unterminated", "a = $0 \x00", "(a = \"b\" ; #", "a = \"b\" c \"never closed", "a ^ !", "a = \"1\" ) \"x", "& $", "a = \"1\" ; , \"", "a b \xff"}
+
 func drawAny(t *rapid.T) *Case {
 	switch rapid.IntRange(0, 9).Draw(t, "source") {
 	case 0, 1, 2, 3:
@@ -364,6 +404,15 @@ func replay(cf *evid.CaseFile) error {
 	if err := evid.Decode(cf.Gob, &c); err != nil {
 		return err
 	}
+	if c.Source == "concurrent" {
+		return fmt.Errorf("a failure of the concurrent sub-check has no single-input replay; re-run ./check C09 quick")
+	}
+	// sequence-dependent failures (twins): replay the base forms first
+	if c.Source == "twin" {
+		for _, v := range []string{strings.ReplaceAll(c.Input, "  ", " "), strings.ReplaceAll(c.Input, "\t", " "), strings.ReplaceAll(strings.ReplaceAll(strings.ReplaceAll(c.Input, "\v", " "), "\u00a0", " "), "\u2003", " ")} {
+			queryparser.ParseQuery(v)
+		}
+	}
 	_, err := check(c.Input)
 	return err
 }
@@ -374,6 +423,71 @@ func TestQuick(t *testing.T) {
 		run(t, c)
 	}
 	fix.Check(t, "parse", 30000, func(rt *rapid.T) { run(rt, drawAny(rt)) })
+	extra(t, 1)
+}
+
+// extra: the sub-checks that are about sequences of calls rather than one input.
+func extra(t *testing.T, scale int) {
+	fix.Check(t, "wrap-placeholder", 400*scale, func(rt *rapid.T) { run(rt, drawWrapPlaceholder(rt)) })
+	fix.Check(t, "twins", 400*scale, func(rt *rapid.T) {
+		base := drawTwinBase(rt)
+		run(rt, &Case{Input: base, Source: "twin-base"})
+		for _, tw := range twins(base) {
+			run(rt, &Case{Input: tw, Source: "twin"})
+		}
+	})
+	for _, s := range synlex {
+		for i := 0; i < 300*scale; i++ {
+			run(t, &Case{Input: s, Source: "syntax-then-lexical-error"})
+		}
+	}
+	concurrent(t, 4*scale)
+}
+
+// concurrent: after a few rejected inputs, G goroutines parse valid and
+// invalid inputs at the same time; every call is judged by the reference.
+func concurrent(t *testing.T, rounds int) {
+	inputs := []string{`a = "1" & b = "2"`, `^ ( a = "x" | b = $2 ) ; a, b`, `a = "1" junk`, `a = $1`, `(((a="q")))`, `a = = "1"`, `a="""" | b="x""y"`, `c = "3" ; c`}
+	var wantQ []*pb.Query
+	var wantOK []bool
+	for _, in := range inputs {
+		q, rej := qref.Parse(in)
+		wantQ, wantOK = append(wantQ, q), append(wantOK, rej == nil)
+	}
+	for r := 0; r < rounds; r++ {
+		for _, bad := range []string{"a a !", ")", "a = "} {
+			queryparser.ParseQuery(bad)
+		}
+		var wg sync.WaitGroup
+		errs := make([]error, 8)
+		for g := 0; g < 8; g++ {
+			wg.Add(1)
+			go func(g int) {
+				defer wg.Done()
+				errs[g] = fix.Safe(func() error {
+					for i := 0; i < 1500; i++ {
+						k := (i*7 + g) % len(inputs)
+						q, err := queryparser.ParseQuery(inputs[k])
+						if (err == nil) != wantOK[k] {
+							return fmt.Errorf("concurrent ParseQuery(%+q): err=%v, reference accepts=%v", inputs[k], err, wantOK[k])
+						}
+						if err == nil && !proto.Equal(q, wantQ[k]) {
+							return fmt.Errorf("concurrent ParseQuery(%+q) returned %s, want %s", inputs[k], qref.QueryString(q), qref.QueryString(wantQ[k]))
+						}
+					}
+					return nil
+				})
+			}(g)
+		}
+		wg.Wait()
+		evid.Case(true, fmt.Sprintf("[concurrent] round %d: 8 goroutines x 1500 ParseQuery calls over %d fixed inputs after 3 rejected inputs", r, len(inputs)), "source:concurrent")
+		for _, e := range errs {
+			if e != nil {
+				c := &Case{Input: strings.Join(inputs, "\n"), Source: "concurrent"}
+				fix.Fail(t, prop, "concurrent", c, c.Summary(), e)
+			}
+		}
+	}
 }
 
 func TestThorough(t *testing.T) {
@@ -388,6 +502,7 @@ func TestThorough(t *testing.T) {
 		}
 	}
 	fix.Check(t, "parse", 200000, func(rt *rapid.T) { run(rt, drawAny(rt)) })
+	extra(t, 5)
 }
 
 func TestReplay(t *testing.T) {
